@@ -6,6 +6,21 @@ import subprocess
 import time
 
 
+def gen_inputs(repo, build):
+    """mechanically extracted snippets of /repo that Kani harnesses include (so the harness is about the real text)"""
+    gen = os.path.join(build, 'kani-gen')
+    os.makedirs(gen, exist_ok=True)
+    src = open(os.path.join(repo, 'src/util/lru.rs')).read()
+    mc = re.search(r'^const GROW_RATIO: f64 = [0-9.]+;', src, re.M)
+    me = re.search(r'if (\(self\.num_filled as f64 / \(1 << self\.cap\) as f64\) > GROW_RATIO) \{\s*(?://[^\n]*\s*)*self\.grow\(\);', src)
+    if not mc or not me:
+        return None, 'anchor-lost: grow condition of Lru::insert / GROW_RATIO not found in src/util/lru.rs'
+    expr = me.group(1).replace('self.num_filled', 'num_filled').replace('self.cap', 'cap')
+    with open(os.path.join(gen, 'lru_grow_test.rs'), 'w') as f:
+        f.write('// GENERATED from /repo/src/util/lru.rs -- do not edit\n%s\n#[allow(dead_code)]\nfn lru_grow_test(num_filled: usize, cap: usize) -> bool {\n    %s\n}\n' % (mc.group(0), expr))
+    return gen, None
+
+
 def run_harnesses(root, repo, harnesses, build):
     """harnesses: list of dicts {name, [thorough_only], [expect_fail]}"""
     crate = os.path.join(root, 'kani')
@@ -13,7 +28,11 @@ def run_harnesses(root, repo, harnesses, build):
     if not harnesses:
         return res
     lock_src = os.path.join(repo, 'Cargo.lock')
-    env = dict(os.environ, CARGO_NET_OFFLINE='true', CARGO_TARGET_DIR=os.path.join(build, 'kani-target'))
+    gen, gerr = gen_inputs(repo, build)
+    if gerr:
+        res['tool_errors'].append(gerr)
+        return res
+    env = dict(os.environ, CARGO_NET_OFFLINE='true', CARGO_TARGET_DIR=os.path.join(build, 'kani-target'), VERIF_KANI_GEN=gen)
     names = [h['name'] for h in harnesses]
     cmd = ['cargo', 'kani', '--manifest-path', os.path.join(crate, 'Cargo.toml'), '-Z', 'function-contracts', '-Z', 'stubbing',
            '--output-format', 'terse', '-j', '8']
